@@ -34,6 +34,7 @@ pub fn simple_texts() -> Vec<String> {
             contracts: vec![vec![i]],
             spdx: false,
             blank_lines: vec![1],
+            clash: false,
         }));
     }
     v
